@@ -603,6 +603,7 @@ do_ws(char **tok)
 	while (k0 < nc && cuts[k0] <= pre) k0++;
 	for (int i = k0; i < nc; i++) cuts[i] -= pre;
 	raw_write_cut(fd, d + pre, len - pre, cuts + k0, nc - k0);
+	usleep(2 * gap_us); // let replies to the last frames leave before the EOF is seen
 	shutdown(fd, SHUT_WR);
 
 	// Collect what nng emits until it is finished with this stream: its
